@@ -2,9 +2,9 @@
   C20 — Ill-posed networks are diagnosed: the svd solver's `defect()` and `lindep(i)`
   (`SVD::nullity`, `SVD::lindep(i) = (inv_W_(i) == 0)`).
 
-  Same setting and the same CERTIFICATE hypothesis `SvdCert` as `Props/C01/Svd.lean` (the
-  factorisation is assumed and checked numerically per run; the Golub–Reinsch iteration is not
-  proved).
+  Same setting as `Props/C01/Svd.lean` (factors as a parameter, `SvdCert` as hypothesis);
+  `Props/C20/SvdDecompose.lean` restates the theorems for the factors `Svd.decompose` returns,
+  with `SvdCert` replaced by `Unambiguous tol W` (the rest of it is proved, `Svd.decompose_svdCert`).
 
   * `C20_svd_count`          : the number of null singular values is `n − rank A`          (holds)
   * `C20_svd_lindep_partial` : `lindep i` ⇔ the i-th SINGULAR VALUE is zero; the number of flags is
